@@ -38,6 +38,9 @@ PROPS = {
     'C14': dict(engine='sidecar', module='Kvass.Props.C14',
                 assumptions=['the float mean int64(float64(total)/float64(n)) equals integer division below 2^51 (n <= 3): exercised at exact multiples and neighbours', 'metric relabeling is a parameter (kept : Bool per sample) of the counting model; the real relabel engine runs in the harness'],
                 partial='none for the stated clauses: counts, per-metric sums, sliding window over every result sequence, shard load formula'),
+    'C17': dict(engine='disc', module='Kvass.Props.C17',
+                assumptions=['a discovered target is represented by the outcome of its translation (key = final labels + URL, dropped, rejected); the label pipeline itself is C02/C15', 'TargetsDiscovery methods are atomic under their mutex (goroutine interleavings inside a method are not modelled)'],
+                partial='update / reload / group theorems are per step, for every state; the explorer table is proved for reloads and compared with the real Explore on every history; readers running concurrently with writers are exercised only by the snapshot re-comparison'),
     'C18': dict(engine='k8s', module='Kvass.Props.C18',
                 assumptions=['client-go fake clientset stands in for the API server; pod names are <sts>-<ordinal>'],
                 partial='none for the stated clauses: exact deleted-claim set, replica count / no-op, ordinal order, rolling-update skip are theorems; readiness wait (2 min timer) is not part of the property'),
@@ -46,6 +49,7 @@ PROPS = {
 }
 
 LEVEL_TEXT = {
+    'C17': 'Machine-checked theorems (Lean 4), for every state and every update / reload: the sets of a job in an update become exactly its translation, other jobs keep theirs, a reload keeps listed jobs unchanged and removes the others in one step, all dropped targets are kept, a rejected target does not affect the rest of its group, explorer entries follow reloads. Conditions regenerated from discovery.go/translate.go/explore.go; validated on random histories through the real Run channel, ApplyConfig and Explore, with snapshot re-comparison.',
     'C12': 'Machine-checked theorems (Lean 4): for every chunking of the body and every sequence of short writes the tee reader forwards exactly the body (induction over chunks and over the short-write loop), and in every successful scenario the proxy answers 200 with exactly those bytes whether or not the target is assigned. Loop conditions regenerated from reader.go/proxy.go; validated against the real Proxy behind an HTTP server with scripted read sizes, gzip, all payload kinds.',
     'C13': 'Machine-checked theorems (Lean 4) over every scenario (failure kind x stop x assignment x every read sequence with a failing read at any position): a failed real scrape yields a non-200 or aborted response, health is truthful, the counter moves exactly once per attempt. Validated against the real Proxy for every byte offset of a multi-read body, three error kinds, gzip and identity.',
     'C09': 'Machine-checked theorems (Lean 4): the file-system protocol extracted from saveTargets on every run is write-temp-then-rename, and for that protocol every crash state (any byte offset, any earlier leftover temp file) loads as the previous or the new assignment; round trip. The real save is then cut at a sweep of byte offsets in a child process (SIGXFSZ kill and EFBIG) and the directory + a fresh Load are compared with the model.',
@@ -65,11 +69,12 @@ NOT_APPLICABLE = {
     'C06': 'check under construction', 
     'C11': 'check under construction',
     'C14': 'check under construction',
-    'C15': 'check under construction', 'C16': 'check under construction', 'C17': 'check under construction',
+    'C15': 'check under construction', 'C16': 'check under construction', 
     'C19': 'check under construction', 'C20': 'check under construction',
 }
 
 ENGINES = [
+    {'name': 'disc', 'path': 'harness/cmd/kvh/disc.go', 'kind_free_text': 'real TargetsDiscovery fed through Run\'s channel, ApplyConfig, Explore.UpdateTargets/ApplyConfig/Get; histories of updates and reloads trace-validated against Disc.step'},
     {'name': 'proxy', 'path': 'harness/cmd/kvh/proxy.go', 'kind_free_text': 'real sidecar Proxy behind an httptest server, real HTTP client, in-memory target with scripted read sizes / cut offsets / error kinds'},
     {'name': 'store', 'path': 'harness/cmd/kvh/store.go', 'kind_free_text': 'child process running the real UpdateTargets under RLIMIT_FSIZE=N (kill and EFBIG), then a fresh TargetsManager.Load(); directory state matched against the crash states of the extracted save protocol'},
     {'name': 'sidecar', 'path': 'harness/cmd/kvh/sidecar.go', 'kind_free_text': 'real TargetsManager + Service (HTTP handlers) + Proxy with a scripted target transport, driven by random operation histories; every step trace-validated against Sidecar.step and the relational specs'},
